@@ -47,7 +47,7 @@ def main():
             res["suite_ok"] = True
             for p in props:
                 t0 = time.time()
-                rc, out = sh("./check %s quick" % p, "/verif", timeout=3600)
+                rc, out = sh("./check %s %s" % (p, os.environ.get("BEN_TIER", "quick")), "/verif", timeout=12000)
                 lines = [l for l in out.splitlines() if not l.startswith("WARNING conda")]
                 flagged = [l[:600] for l in lines if l.startswith(("VIOLATION", "INCONCLUSIVE", "UNCONFIRMED", "ENCODING-MISMATCH", "NOTE", "  signature"))]
                 res["checks"][p] = {"exit": rc, "wall_s": round(time.time() - t0, 1), "flagged": flagged[:12], "summary": lines[-1][:300] if lines else ""}
@@ -58,7 +58,7 @@ def main():
         sh("git checkout -- . && git clean -fdq", "/repo")
         for f in os.listdir(bak):
             shutil.copy(os.path.join(bak, f), "/verif/evidence/" + f)
-    d = "/verif/benign/" + name
+    d = "/verif/benign/" + name + ("" if os.environ.get("BEN_TIER", "quick") == "quick" else "-" + os.environ["BEN_TIER"])
     os.makedirs(d, exist_ok=True)
     shutil.copy(diff, d + "/patch.diff")
     if os.path.exists(note):
